@@ -83,6 +83,43 @@ Section SumFacts.
     unfold mass_entry, integrate, affine_dx. apply rsum_ext. intros e _.
     rewrite <- rsum_mul_l. apply rsum_ext. intros q _. ring.
   Qed.
+  (* ---------- stiffness on a general affine cell: contraction of the reference tensor with G = B B^T *)
+  Lemma rsum_pull2 {A B C} (lq : list A) (lk : list B) (ll : list C) (G : B -> C -> R) (t : B -> C -> A -> R) :
+    rsum O lq (fun q => rsum O lk (fun k => rsum O ll (fun l => G k l * t k l q)))
+    = rsum O lk (fun k => rsum O ll (fun l => G k l * rsum O lq (fun q => t k l q))).
+  Proof.
+    rewrite rsum_swap. apply rsum_ext. intros k _. rewrite rsum_swap. apply rsum_ext. intros l _.
+    apply rsum_mul_l.
+  Qed.
+
+  Ltac pointwise := intros; unfold gdot, gramB; cbn [rsum seq]; ring.
+  Lemma gdot_pointwise1 B gi gj q : gdot O 1%nat B gi gj q
+    = rsum O (seq 0 1%nat) (fun k => rsum O (seq 0 1%nat) (fun l => gramB O 1%nat B k l * (gi k q * gj l q))).
+  Proof. pointwise. Qed.
+  Lemma gdot_pointwise2 B gi gj q : gdot O 2%nat B gi gj q
+    = rsum O (seq 0 2%nat) (fun k => rsum O (seq 0 2%nat) (fun l => gramB O 2%nat B k l * (gi k q * gj l q))).
+  Proof. pointwise. Qed.
+  Lemma gdot_pointwise3 B gi gj q : gdot O 3%nat B gi gj q
+    = rsum O (seq 0 3%nat) (fun k => rsum O (seq 0 3%nat) (fun l => gramB O 3%nat B k l * (gi k q * gj l q))).
+  Proof. pointwise. Qed.
+
+  (* sum_q (grad phi_i . grad phi_j)(x_q) * (|detA| W_q)
+     = |detA| * sum_{k,l} G_kl * (sum_q d_k phi_i(x_q) d_l phi_j(x_q) W_q)   for d = 1, 2, 3 *)
+  Theorem stiffness_contraction (d : nat) (B gi gj : nat -> nat -> R) (c : R) (W : nat -> R) (nq : nat) :
+    (d = 1 \/ d = 2 \/ d = 3)%nat ->
+    rsum O (seq 0 nq) (fun q => gdot O d B gi gj q * (c * W q))
+    = c * rsum O (seq 0 d) (fun k => rsum O (seq 0 d) (fun l =>
+            gramB O d B k l * rsum O (seq 0 nq) (fun q => gi k q * gj l q * W q))).
+  Proof.
+    intros Hd.
+    transitivity (rsum O (seq 0 nq) (fun q => c * rsum O (seq 0 d) (fun k => rsum O (seq 0 d) (fun l =>
+                    gramB O d B k l * (gi k q * gj l q * W q))))).
+    { apply rsum_ext. intros q _.
+      transitivity (c * (rsum O (seq 0 d) (fun k => rsum O (seq 0 d) (fun l => gramB O d B k l * (gi k q * gj l q))) * W q)).
+      - destruct Hd as [->|[->| ->]]; [rewrite gdot_pointwise1|rewrite gdot_pointwise2|rewrite gdot_pointwise3]; ring.
+      - f_equal. rewrite <- rsum_mul_r. apply rsum_ext. intros k _. rewrite <- rsum_mul_r. apply rsum_ext. intros l _. ring. }
+    rewrite rsum_mul_l. f_equal. apply rsum_pull2.
+  Qed.
 End SumFacts.
 
 Lemma exp_add_sum : forall a b, length a = length b -> list_sum (exp_add a b) = list_sum a + list_sum b.
